@@ -1,6 +1,7 @@
 package main
 
 import (
+	"sort"
 	"bytes"
 	"fmt"
 	"strings"
@@ -82,6 +83,29 @@ func lazyInput(c *C, r *Root) []byte {
 			b = append(b, rec...)
 		}
 	}
+	// many small occurrences of the message fields, in rounds of descending / scrambled field order: the lazy
+	// index then holds several dozen entries that must be re-sorted without permuting the occurrences of one
+	// field (merge order is observable: in every occurrence the same scalar gets a different value)
+	if c.Rand.Intn(4) == 0 && len(mfs) > 0 {
+		rounds := 3 + c.Rand.Intn(30)
+		for k := 0; k < rounds; k++ {
+			order := c.Rand.Perm(len(mfs))
+			if c.Rand.Intn(2) == 0 { // descending field numbers
+				sort.Slice(order, func(i, j int) bool { return mfs[order[i]].Number() > mfs[order[j]].Number() })
+			}
+			if len(order) > 4 {
+				order = order[:2+c.Rand.Intn(3)]
+			}
+			for _, i := range order {
+				fd := mfs[i]
+				if fd.Kind() == protoreflect.GroupKind || fd.IsMap() {
+					continue
+				}
+				b = protowire.AppendBytes(protowire.AppendTag(b, fd.Number(), protowire.BytesType), roundPayload(fd.Message(), k))
+			}
+		}
+		c.Hist("lazy-many-occurrences")
+	}
 	if c.Rand.Intn(3) == 0 {
 		b = shuffleRecords(c, b)
 	}
@@ -89,6 +113,27 @@ func lazyInput(c *C, r *Root) []byte {
 		b, _ = mutateWire(c, b)
 	}
 	return b
+}
+
+// roundPayload: an encoding of md in which the first varint/fixed scalar field (if any) carries the value k+1,
+// so that the order in which occurrences are merged is visible in the result; empty when md has no such field.
+func roundPayload(md protoreflect.MessageDescriptor, k int) []byte {
+	fds := md.Fields()
+	for i := 0; i < fds.Len(); i++ {
+		fd := fds.Get(i)
+		if fd.IsList() || fd.IsMap() {
+			continue
+		}
+		switch fd.Kind() {
+		case protoreflect.Int32Kind, protoreflect.Int64Kind, protoreflect.Uint32Kind, protoreflect.Uint64Kind:
+			return protowire.AppendVarint(protowire.AppendTag(nil, fd.Number(), protowire.VarintType), uint64(k+1))
+		case protoreflect.Fixed32Kind, protoreflect.Sfixed32Kind, protoreflect.FloatKind:
+			return protowire.AppendFixed32(protowire.AppendTag(nil, fd.Number(), protowire.Fixed32Type), uint32(k+1))
+		case protoreflect.Fixed64Kind, protoreflect.Sfixed64Kind, protoreflect.DoubleKind:
+			return protowire.AppendFixed64(protowire.AppendTag(nil, fd.Number(), protowire.Fixed64Type), uint64(k+1))
+		}
+	}
+	return nil
 }
 
 // shuffleRecords permutes the top-level records of a well-formed encoding (arbitrary field order on the wire:
